@@ -181,6 +181,13 @@ pub trait Property {
     fn hang_is_violation() -> bool {
         false
     }
+    /// Whether a case that kills the process (SIGSEGV, SIGBUS, SIGABRT ...) while the code under
+    /// test handles it violates the property (the property promises a clean result for every input
+    /// of its domain). The crashing case is located by running the worker once more with a case log
+    /// and must crash a fresh replay process as well; otherwise a dead worker is inconclusive.
+    fn crash_is_violation() -> bool {
+        false
+    }
     /// Wall-clock cap on shrinking (ms); the best case found so far is reported when it is hit.
     fn max_shrink_time_ms(_tier: Tier) -> u32 {
         20_000
@@ -258,8 +265,17 @@ pub fn run_worker<P: Property>(tier: Tier, seed: u64, worker: usize, n: u64, dir
     let ctr = RefCell::new(Counters::default());
     let trace = std::env::var("VERIF_TRACE").is_ok();
     start_watchdog(P::case_timeout_s(), dir.join(format!("w{}.hang.json", worker)));
+    // VERIF_CASELOG: every case is written out (unbuffered) before it runs, so that the case that
+    // kills the process can be read back by the parent
+    let caselog = std::env::var("VERIF_CASELOG").ok().and_then(|p| std::fs::OpenOptions::new().create(true).append(true).open(p).ok());
     let result = runner.run(&strategy, |case| {
         watch_case(&case);
+        if let Some(mut f) = caselog.as_ref() {
+            use std::io::Write;
+            let mut line = serde_json::to_vec(&case).unwrap_or_default();
+            line.push(b'\n');
+            let _ = f.write_all(&line);
+        }
         if trace {
             eprintln!("CASE {}", serde_json::to_string(&case).unwrap_or_default());
         }
@@ -483,7 +499,15 @@ fn parent<P: Property>(tier: Tier, seed: u64, replay: Option<String>, cases_over
         let t_start = crate::clock::real_mono_s();
         loop {
             match ch.try_wait() {
-                Ok(Some(st)) => return st.code().unwrap_or(2),
+                Ok(Some(st)) => {
+                    use std::os::unix::process::ExitStatusExt;
+                    if let (Some(sig), true) = (st.signal(), P::crash_is_violation()) {
+                        println!("replay killed the process (signal {})", sig);
+                        println!("VIOLATION property={} replay={}", P::ID, f);
+                        return 1;
+                    }
+                    return st.code().unwrap_or(2);
+                }
                 Ok(None) => {}
                 Err(_) => return 2,
             }
@@ -680,7 +704,41 @@ fn parent<P: Property>(tier: Tier, seed: u64, replay: Option<String>, cases_over
                     let _ = std::fs::copy(&hf, &dst);
                     hang_reports.push((format!("worker {}: a generated case did not return within {} s", w, P::case_timeout_s()), dst));
                 } else {
-                    inconclusive.push(format!("worker {} died without a result ({:?})", w, status));
+                    use std::os::unix::process::ExitStatusExt;
+                    let mut reported = false;
+                    if let (Some(sig), true) = (status.signal(), P::crash_is_violation()) {
+                        // run the same worker again with a case log, read back the case it died on,
+                        // and confirm in a fresh process
+                        let log = root.join(format!("w{}.caselog", w));
+                        let n = total / nw as u64 + if (w as u64) < total % nw as u64 { 1 } else { 0 };
+                        let _ = std::process::Command::new(&exe)
+                            .arg(P::ID.to_lowercase())
+                            .arg("--tier")
+                            .arg(tier.name())
+                            .arg("--worker")
+                            .arg(w.to_string())
+                            .arg(n.to_string())
+                            .arg(root.to_string_lossy().to_string())
+                            .env("VERIF_SEED", (seed as i64).to_string())
+                            .env("VERIF_CASELOG", &log)
+                            .status();
+                        let last = std::fs::read_to_string(&log).ok().and_then(|t| t.lines().last().map(|l| l.to_string()));
+                        if let Some(case) = last.and_then(|l| serde_json::from_str::<Value>(&l).ok()) {
+                            let reason = format!("the process died with signal {} while the code under test handled this case", sig);
+                            let p = write_replay(P::ID, &reason, &case, seed);
+                            let st = std::process::Command::new(&exe).arg(P::ID.to_lowercase()).arg("--replay").arg(&p).env("VERIF_REPLAY_INNER", "1").stdout(std::process::Stdio::null()).status();
+                            if let Ok(st) = st {
+                                if st.signal().is_some() {
+                                    println!("worker {}: {}", w, reason);
+                                    violations.push((reason, p));
+                                    reported = true;
+                                }
+                            }
+                        }
+                    }
+                    if !reported {
+                        inconclusive.push(format!("worker {} died without a result ({:?})", w, status));
+                    }
                 }
             }
         }
